@@ -91,7 +91,7 @@ Inductive dev := DO (e : oev) | DI (it : item) | DS (id : N) (p : packet).
 (* ---- the reference machine of one operation ---- *)
 Inductive phase :=
 | GAbs | GNot | GCur (pid : N) (d : bool) | GPend (pid : N) | GInt (pid : N)
-| GRel (pid : N) | GRelInt (pid : N) | GRelCur (pid : N).
+| GRel (pid : N) | GRelInt (pid : N) | GRelCur (pid : N) | GGone.
 Record gst := mkG { g_sp : bool; g_sub : packet; g_ph : phase }.
 
 (* a connection close (or a new connection): what was handed to the encoder / written is interrupted *)
@@ -103,9 +103,15 @@ Definition closed_ph (ph : phase) : phase :=
   | GRel pid | GRelCur pid => GRelInt pid
   | _ => ph
   end.
-(* a CONNACK without session: every surviving publish restarts (while the CONNACK is awaited nothing is seated or
-   pending: an operation in another phase no longer exists) *)
-Definition restart_ph (ph : phase) : phase := match ph with GInt _ | GRelInt _ => GNot | _ => ph end.
+(* a CONNACK on which the session rules run.  While it is awaited nothing is seated and no publish is pending: an
+   operation that the machine still has in one of those phases no longer exists (GGone).  An interrupted operation is
+   kept when the session is present and restarts otherwise. *)
+Definition sess_ph (sp : bool) (ph : phase) : phase :=
+  match ph with
+  | GCur _ _ | GPend _ | GRel _ | GRelCur _ => GGone
+  | GInt _ | GRelInt _ => if sp then ph else GNot
+  | _ => ph
+  end.
 
 Definition gnext (i : N) (g : gst) (e : dev) : gst :=
   match e with
@@ -135,7 +141,7 @@ Definition gnext (i : N) (g : gst) (e : dev) : gst :=
       match it_p it with
       | Connack c =>
           if it_sess it then
-            mkG (ca_session_present c) (g_sub g) (if ca_session_present c then g_ph g else restart_ph (g_ph g))
+            mkG (ca_session_present c) (g_sub g) (sess_ph (ca_session_present c) (g_ph g))
           else g
       | Pubrec _ =>
           match it_rel it with
@@ -159,12 +165,12 @@ Definition gok (i : N) (g : gst) (e : dev) : Prop :=
                                g_sp g = true
       | GRel pid => p = Pubrel (default_ack pid)
       | GRelInt pid => p = Pubrel (default_ack pid) /\ g_sp g = true
-      | GCur _ _ | GPend _ | GRelCur _ => False
+      | GCur _ _ | GPend _ | GRelCur _ | GGone => False
       end
   | DI it =>
-      (* a PUBREC that sets the PUBREL slot of i acknowledges the identifier i was published with *)
+      (* a PUBREC sets the PUBREL slot of i only while its PUBLISH is pending, and acknowledges the identifier it was published with *)
       match it_p it, it_rel it with
-      | Pubrec a, Some id => id = i -> match g_ph g with GPend pid | GRel pid => ack_pid a = pid | _ => True end
+      | Pubrec a, Some id => id = i -> match g_ph g with GPend pid | GRel pid => ack_pid a = pid | GAbs => True | _ => False end
       | _, _ => True
       end
   | _ => True
@@ -211,6 +217,7 @@ Section J.
     | GRelInt pid => pub_dup pb = true /\ op_pubrel o = relof pid /\ noppub s /\ bnd o pb pid /\ parked s /\ dead_cur s /\
                      (s_st s = Connected -> g_sp g = true) /\ pub_qos pb = 2
     | GRelCur pid => s_cur s = Some i /\ pub_dup pb = true /\ op_pubrel o = relof pid /\ noppub s /\ bnd o pb pid /\ pub_qos pb = 2
+    | GGone => False
     end.
 
   Definition JP (s : state) (g : gst) : Prop :=
